@@ -77,7 +77,7 @@ def lean_build(targets):
     lock = open(LEAN / ".build.lock", "w")
     fcntl.flock(lock, fcntl.LOCK_EX)
     try:
-        rc, out = _run(["lake", "build", "driver"] + list(targets), cwd=LEAN, timeout=3000)
+        rc, out = _run(["lake", "build"] + list(targets), cwd=LEAN, timeout=3000)
     finally:
         fcntl.flock(lock, fcntl.LOCK_UN)
         lock.close()
@@ -124,7 +124,7 @@ class Driver:
     """Line-protocol client for the compiled Lean model driver."""
 
     def __init__(self, pid):
-        exe = LEAN / ".lake" / "build" / "bin" / "driver"
+        exe = LEAN / ".lake" / "build" / "bin" / f"driver_{pid}"
         if not exe.exists():
             raise Infra(f"driver executable missing: {exe}")
         self.pid = pid
@@ -146,9 +146,9 @@ class Driver:
         return rep.rstrip("\n")
 
     def ask(self, *parts):
-        """Send `<pid> <parts…>`; parts are stringified (Fractions as n/d)."""
+        """Send `<op> <args…>`; parts are stringified (Fractions as n/d, lists length-prefixed)."""
         self.requests += 1
-        line = self.pid + " " + " ".join(w(p) for p in parts)
+        line = " ".join(w(p) for p in parts)
         rep = self._ask_raw(line)
         if rep == "bad-op":
             raise Infra(f"model does not understand request: {line[:300]}")
@@ -201,10 +201,14 @@ def frac(s):
 # ---------------------------------------------------------------------------------------------
 
 def load_findings():
+    """known_findings.json (committed, authoritative) + per-property proposals in meta/Cxx.json."""
+    out = []
     p = VERIF / "known_findings.json"
-    if not p.exists():
-        return []
-    return json.loads(p.read_text())["findings"]
+    if p.exists():
+        out += json.loads(p.read_text())["findings"]
+    for m in sorted((VERIF / "meta").glob("C*.json")):
+        out += json.loads(m.read_text()).get("findings", [])
+    return out
 
 
 def match_finding(findings, pid, site, tags):
@@ -301,25 +305,24 @@ class Ctx:
 # main entry
 # ---------------------------------------------------------------------------------------------
 
-def props_index():
-    return json.loads((LEAN / "PyresampleModel" / "Props" / "index.json").read_text())
+def prop_meta(pid):
+    p = VERIF / "meta" / f"{pid}.json"
+    return json.loads(p.read_text()) if p.exists() else {}
 
 
 def check_obligations(pid, thorough):
-    idx = props_index().get(pid, {})
+    idx = prop_meta(pid)
     theorems = idx.get("theorems", [])
     modules = [f"PyresampleModel.Model.{pid}", f"PyresampleModel.Props.{pid}"] + \
         [f"PyresampleModel.{m}" for m in idx.get("extra_modules", [])]
     ob = {"theorems": theorems, "broken": [], "axioms": {}, "build_ok": False, "scan_hits": []}
-    ok, out = lean_build(modules)
+    ok, out = lean_build(modules + [f"driver_{pid}"])
     ob["build_ok"] = ok
     if not ok:
         ob["broken"].append("lake build failed: " + out[-1500:])
         return ob
     files = [LEAN / (m.replace(".", "/") + ".lean") for m in modules] + \
-        [LEAN / "PyresampleModel" / "Model" / "Core.lean", LEAN / "Driver.lean"]
-    for extra in idx.get("scan_also", []):
-        files.append(LEAN / extra)
+        [LEAN / "PyresampleModel" / "Model" / "Core.lean", LEAN / "Drivers" / f"{pid}.lean"]
     ob["scan_hits"] = lean_scan([f for f in files if f.exists()])
     if ob["scan_hits"]:
         ob["broken"].append("forbidden tokens: " + "; ".join(ob["scan_hits"][:5]))
@@ -367,7 +370,7 @@ def main(argv=None):
     try:
         mod = importlib.import_module(f"props.{pid.lower()}")
         if a.no_proof:
-            ok, out = lean_build([f"PyresampleModel.Model.{pid}"])
+            ok, out = lean_build([f"driver_{pid}"])
             ob = {"theorems": [], "broken": [] if ok else [out[-800:]], "axioms": {}, "build_ok": ok}
         else:
             ob = check_obligations(pid, a.tier == "thorough")
@@ -434,7 +437,7 @@ def finish(ctx, ob, meta):
         "coverage": {
             "obligations": n_ob, "discharged": discharged,
             "checker_cmd": f"cd lean/PyresampleModel && lake build PyresampleModel.Props.{pid} && "
-                           f"lake env lean <generated #print axioms file for Props/index.json[{pid}]>"
+                           f"lake env lean <generated '#print axioms' file for the theorems listed in meta/{pid}.json>"
                            + (" && lake env leanchecker <modules>" if ctx.tier == "thorough" else ""),
             "trusted_base": TRUSTED_BASE + meta.get("trusted_base", []),
             "theorems": ob.get("axioms", {}),
